@@ -291,11 +291,17 @@ class World:
 
     # ---- observation ----------------------------------------------------
     def callback(self, node, svc):
+        late = svc in node.lsubs        # not the first local subscriber of this service on this node
+
         def cb(key_s, ann, node=node, svc=svc):
-            self.out.setdefault(node.name, []).append(
-                {"svc": str(ann.get("service-name", "?")) if isinstance(ann, dict) else "?",
+            if late and id(cb) in getattr(self, "late_done", ()):
+                return
+            d = {"svc": str(ann.get("service-name", "?")) if isinstance(ann, dict) else "?",
                  "key": self.by_key_s.get(key_s, "unknown"), "seq": abs_seq(ann),
-                 "body": str(ann.get("body", "?")) if isinstance(ann, dict) else "?", "cb": svc})
+                 "body": str(ann.get("body", "?")) if isinstance(ann, dict) else "?", "cb": svc}
+            if late:
+                d["late"] = True
+            self.out.setdefault(node.name, []).append(d)
         return cb
 
     def read_cache(self, node):
@@ -367,19 +373,17 @@ class World:
 
     def subscribe(self, n, svc):
         """subscribe_to.  The first local subscriber of a service on a node listens for ever; a further one (a part of
-        the node that asks late) only reports what it is told at once, so that every announcement is observed once."""
+        the node that asks late) reports only what it is told at once, so that every announcement is observed once.
+        (subscribe_to hands the backlog to *all* subscribers of the service, the earlier ones included: duplicates a
+        subscriber "must be prepared to tolerate" - the first subscriber is not listened to during that call.)"""
         node = self.nodes[n]
         self.begin()
         cb = self.callback(node, svc)
         if svc in node.lsubs:
-            listening = [True]
-            first = cb
-
-            def cb(key_s, ann):
-                if listening[0]:
-                    first(key_s, ann)
             r = self.guarded(node.ic.subscribe_to, svc, cb)
-            listening[0] = False
+            mine = [d for d in self.out.get(n, []) if d.get("late")]
+            self.out[n] = [{k: v for k, v in d.items() if k != "late"} for d in mine]
+            self.late_done = getattr(self, "late_done", set()) | {id(cb)}
         else:
             r = self.guarded(node.ic.subscribe_to, svc, cb)
             node.lsubs.append(svc)
@@ -651,7 +655,7 @@ def scenario_cache(rng, workdir, variant):
     w.start("n3", True)
     w.drain()
     w.quiescent()
-    if rng.random() < 0.5:
+    if variant == "replay" or rng.random() < 0.5:
         w.publish("n1", "storage", rng.choice(BODIES))
         w.drain()
     w.kill("n3")
@@ -682,6 +686,36 @@ def scenario_cache(rng, workdir, variant):
             w.inject(dict(a), t)
         w.connect("n3")
         w.drain()
+    w.quiescent()
+    return w
+
+
+def scenario_restart_replay(rng, workdir):
+    """the introducer restarts and is fed old announcements before the publisher is back: a subscriber that kept
+    running does not go backwards, and one that joins afterwards ends up with the same set"""
+    w = World(rng, workdir, ["n1", "n2", "n3"])
+    w.subscribe("n3", "storage")
+    w.start("n3", True)
+    w.publish("n1", "storage", rng.choice(BODIES))
+    w.start("n1", True)
+    w.drain()
+    for _ in range(rng.choice([1, 2])):
+        w.publish("n1", "storage", rng.choice(BODIES))
+        w.drain()
+    w.quiescent()
+    w.server_restart()
+    old = sorted([(a, t) for a, t in w.genuine if a["key"] == "k_n1"], key=lambda x: x[0]["seq"]["n"])
+    for a, t in old[:-1][:rng.choice([1, 2])]:
+        w.inject(dict(a), t)
+    w.connect("n3")
+    w.drain()
+    w.quiescent()
+    w.connect("n1")
+    w.drain()
+    w.quiescent()
+    w.subscribe("n2", "storage")
+    w.start("n2", True)
+    w.drain()
     w.quiescent()
     return w
 
@@ -751,6 +785,7 @@ def main():
             run("cache_" + variant, i, lambda rng: scenario_cache(rng, workdir, variant), True)
     for i in range(a.twokeys):
         run("twokeys", i, lambda rng: scenario_twokeys(rng, workdir), remembered)
+        run("restart_replay", i, lambda rng: scenario_restart_replay(rng, workdir), remembered)
     with open(a.out, "w") as f:
         json.dump({"remembered": remembered, "traces": traces}, f)
 
